@@ -49,6 +49,23 @@ type SessionBasedAuthorizer struct {
 // Handle will respond with failures or accepts as needed
 func (sa SessionBasedAuthorizer) Handle(response tq.Response, request tq.Request) {
 	if args, status := sa.evaluate(); len(args) > 0 {
+		reply := tq.NewAuthorReply(
+			tq.SetAuthorReplyStatus(status),
+			tq.SetAuthorReplyArgs(args...),
+		)
+		if err := reply.Validate(); err != nil {
+			// the configured values do not fit an authorization reply (an argument longer than
+			// 255 octets, more than 255 arguments); the request is still owed an answer
+			sa.Errorf(request.Context, "session values configured for user [%v] cannot be encoded; %v", sa.user.Name, err)
+			stringyHandleAuthorizeError.Inc()
+			response.Reply(
+				tq.NewAuthorReply(
+					tq.SetAuthorReplyStatus(tq.AuthorStatusError),
+					tq.SetAuthorReplyServerMsg("unable to encode authorization reply"),
+				),
+			)
+			return
+		}
 		sa.Debugf(request.Context, "authorized user [%v] as session based; args %v", sa.user.Name, args)
 		switch status {
 		case tq.AuthorStatusPassAdd:
@@ -56,12 +73,7 @@ func (sa SessionBasedAuthorizer) Handle(response tq.Response, request tq.Request
 		case tq.AuthorStatusPassRepl:
 			stringyHandleAuthorizeAcceptPassReplace.Inc()
 		}
-		response.Reply(
-			tq.NewAuthorReply(
-				tq.SetAuthorReplyStatus(status),
-				tq.SetAuthorReplyArgs(args...),
-			),
-		)
+		response.Reply(reply)
 		return
 	}
 	sa.Debugf(request.Context, "user [%v] failed session based authorization", sa.user.Name)
